@@ -127,4 +127,13 @@ var props = map[string]*propCfg{
 		Stub: []string{"task transition body (injected Transition, verif hook)", "integration plugin: probe plugin registered through the public RegisterPlugin API", "Consul: simconsul", "event writers: capturing writers (verif hook)", "callers follow the API rule (GO_ERROR after a failed request, forced ERROR if refused) as core/server.go does"},
 		Assumptions: append([]string{"teardown and the API-level paths (ControlEnvironment, DestroyEnvironment) are exercised by the whole-core harness, not here", "hook tasks are not generated here (calls only)"}, commonAssumptions...),
 	},
+	"C02": {
+		Harness: "hcore", Level: "exploration", OnePerProcess: true,
+		QuickRuns: 3000, QuickBudgetS: 120, ThoroughRuns: 200000, ThoroughBudgetS: 1800,
+		WatchdogSlackS: 120, DetSeedsQuick: 0, DetSeedsThorough: 0,
+		Rule: "one run = one OS process booting the whole core in a bubble: 1-3 agents, a generated workflow of 0-4 tasks (critical or not, direct/FairMQ, each with a drawn start behaviour ok/late/fails/never and a drawn outcome ok/error-stay/error-state/silent/undeliverable/dies per CONFIGURE/START/STOP/RESET), NewEnvironment then 1-6 ControlEnvironment requests then DestroyEnvironment, drawn delivery latencies; oracle: each request succeeds iff every critical active task acknowledged (reference computed from the drawn outcomes), destination never reported on failure, environment in ERROR after a failure, error returned, every request returns; non-trivial = at least one task; distinct = distinct (scenario, interleaving)",
+		Real: []string{"core.RpcServer methods (NewEnvironment, ControlEnvironment, DestroyEnvironment, GetEnvironments, GetTasks, CleanupTasks)", "core/environment: Manager (create, teardown, event loop), Environment FSM, transition_*.go bodies", "core/task: Manager (acquire/configure/transition/release/kill, status handling), scheduler event handlers (offers, updates, messages, failure, reconciliation), roster, matching", "core/controlcommands", "core/workflow (load from a generated local git repository, role tree, template processing)", "core/repos (local repository)", "apricot/local + cfgbackend.ConsulSource + hashicorp consul api", "mesos-go controller, event/call rules, ack handling", "looplab/fsm (instrumented copy)"},
+		Stub: []string{"Mesos master, agents, executors and tasks: simmesos behind the calls.Caller seam (verif hook SetCallerForVerif)", "Consul: simconsul (http.RoundTripper)", "Kafka: capturing event writers", "gRPC transport: RPC methods are called directly on the RpcServer object (verif hook)", "metrics HTTP server: disabled (port -1)"},
+		Assumptions: append([]string{"simmesos is a model of Mesos written from the scheduler API documentation", "replay of a violation is confirmed in a fresh process; tapes of this harness are not shrunk (one run per process)", "determinism of this harness is checked by replaying every violation in a fresh process (canonical log hash must match), not by the per-seed self-test"}, commonAssumptions...),
+	},
 }
